@@ -19,6 +19,7 @@ import traceback
 sys.setrecursionlimit(20000)
 
 VERIF = os.path.dirname(os.path.dirname(os.path.abspath(__file__)))
+EVIDENCE_DIR = os.environ.get("PYVC_EVIDENCE_DIR")  # scratch runs (mutant trials) must not overwrite the committed evidence
 REPO = os.environ.get("PYVC_REPO", "/repo")
 NATIVE_PY = os.environ.get("PYVC_NATIVE_PY", "/venv/bin/python")
 CONTRACT_MODULES = ["c06", "c19", "c10", "c18", "c08", "c12", "c09", "c17", "c02", "c11", "c20", "c05", "c13", "c15",
@@ -541,8 +542,9 @@ def check_property(prop, tier, seed):
     }
     ev = {"property_id": prop, "tier": tier, "seed": seed, "level": level, "coverage": coverage,
           "assumptions": ASSUMPTIONS_COMMON + PROP_ASSUMPTIONS.get(prop, []), "wall_s": round(wall, 2), "violations": vio_count}
-    os.makedirs(os.path.join(VERIF, "evidence"), exist_ok=True)
-    with open(os.path.join(VERIF, "evidence", f"{prop}.json"), "w") as fh:
+    evdir = EVIDENCE_DIR or os.path.join(VERIF, "evidence")
+    os.makedirs(evdir, exist_ok=True)
+    with open(os.path.join(evdir, f"{prop}.json"), "w") as fh:
         json.dump(ev, fh, indent=1, default=str)
     for ln in lines:
         print(ln)
